@@ -264,6 +264,9 @@ func (t *loopTr) needsFlow(n ast.Node, returns bool) bool {
 				}
 			}
 		case *ast.BinaryExpr:
+			if (x.Op == token.QUO || x.Op == token.REM) && t.unsignedDivisor(x.Y) {
+				found = true // stage 14: a zero divisor panics
+			}
 			if t.flowFn && (x.Op == token.SHL || x.Op == token.SHR) && t.signedCount(x.Y) {
 				found = true
 			}
@@ -392,8 +395,30 @@ func (t *loopTr) constInt(e ast.Expr) (*big.Int, bool) {
 func (t *loopTr) forStmt(s *ast.ForStmt, ind string, m blockMode, rest func(string) string) string {
 	const shape = "only `for i := a; i < b; i++` (also <=, > and >= with i--, i += k, i -= k) is supported"
 	init, ok := s.Init.(*ast.AssignStmt)
-	if !ok || init.Tok != token.DEFINE || len(init.Lhs) != 1 || len(init.Rhs) != 1 || s.Cond == nil || s.Post == nil {
+	if !ok || init.Tok != token.DEFINE || len(init.Lhs) < 1 || len(init.Rhs) != len(init.Lhs) || s.Cond == nil || s.Post == nil {
 		t.fail(s, "three-clause loop: %s", shape)
+	}
+	// stage 14: `for i, v, … := a, c, …; …` — the first variable is the loop variable; the others are ordinary locals of
+	// the loop statement, initialised with CONSTANTS (so the order of evaluation of the initialisers cannot matter)
+	// before the loop starts and part of the loop state when the body assigns them.
+	extraInit := ""
+	for j := 1; j < len(init.Lhs); j++ {
+		id, ok := init.Lhs[j].(*ast.Ident)
+		if !ok || id.Name == "_" || t.info.Defs[id] == nil {
+			t.fail(s, "three-clause loop: %s; further variables of the init statement must be new named variables", shape)
+		}
+		if tv, ok := t.info.Types[init.Rhs[j]]; !ok || tv.Value == nil {
+			t.fail(s, "three-clause loop: the initialiser of the additional variable %s must be a constant", id.Name)
+		}
+		_, en, ek := t.localVar(id)
+		if ek != kInt && ek != kUint {
+			t.fail(s, "three-clause loop: the additional variable %s must be an int, uint or uint64", id.Name)
+		}
+		ev, evk := t.expr(init.Rhs[j])
+		if evk != ek || len(t.checks) != 0 {
+			t.fail(s, "three-clause loop: the initialiser of the additional variable %s", id.Name)
+		}
+		extraInit += fmt.Sprintf("%slet %s : %s := %s\n", ind, en, ek.lean(), ev)
 	}
 	vid, ok := init.Lhs[0].(*ast.Ident)
 	if !ok || vid.Name == "_" {
@@ -527,7 +552,32 @@ func (t *loopTr) forStmt(s *ast.ForStmt, ind string, m blockMode, rest func(stri
 		fn = "Go.forUp"
 	}
 	list := fmt.Sprintf("(%s %s %s %s %s %s)", fn, boolLean(k == kInt), boolLean(incl), a, b, step.String())
+	if extraInit != "" {
+		// the additional variables are declared inside the loop statement: the scope that decides what is loop state is the body
+		for j := 1; j < len(init.Lhs); j++ {
+			if id := init.Lhs[j].(*ast.Ident); usedIn(s.Post, t.info.Defs[id], t.info) || usedIn(s.Cond, t.info.Defs[id], t.info) ||
+				usedIn(init.Rhs[0], t.info.Defs[id], t.info) {
+				t.fail(s, "three-clause loop: the additional variable %s in the condition or the post statement", id.Name)
+			}
+		}
+		return extraInit + t.loopOverScope(s, s.Body, s.Body, list, fmt.Sprintf("(%s : BitVec 64)", name), ind, m, rest)
+	}
 	return t.loopOver(s, s.Body, list, fmt.Sprintf("(%s : BitVec 64)", name), ind, m, rest)
+}
+
+// usedIn: the object o is mentioned in n.
+func usedIn(n ast.Node, o types.Object, info *types.Info) bool {
+	found := false
+	if n == nil || o == nil {
+		return false
+	}
+	ast.Inspect(n, func(m ast.Node) bool {
+		if id, ok := m.(*ast.Ident); ok && info.Uses[id] == o {
+			found = true
+		}
+		return !found
+	})
+	return found
 }
 
 // ---------------------------------------------------------------- `for len(x) >= c { …; x = x[k:]; … }`
